@@ -104,6 +104,8 @@ class RGen:
 
     def base(self, n, cplx):
         r = self.r
+        if self.krylov == "general":
+            return self.dense_general(n, cplx) if r.random() < 0.6 else self.dense_psd(n, cplx)
         if self.krylov:
             return self.dense_psd(n, cplx)
         x = r.random()
